@@ -55,6 +55,11 @@ Section TyInd.
   Hypothesis Hwrap : forall t, P t -> P (TWrap t).
   Hypothesis Hunion : forall ts, Forall P ts -> P (TUnion ts).
   Hypothesis Hnone : P TNone.
+  Hypothesis Hlit : P TLit.
+  Hypothesis Habsent : forall d, P (TAbsent d).
+  Hypothesis Hcomp : forall k t, P t -> P (TComp k t).
+  Hypothesis Hrmap : forall kt, P kt -> forall vt, P vt -> P (TRMap kt vt).
+  Hypothesis Hrec : forall ts, Forall P ts -> P (TRec ts).
 
   Fixpoint ty_ind' (t: ty) : P t :=
     let go := fix go (ts: list ty) : Forall P ts :=
@@ -75,6 +80,11 @@ Section TyInd.
     | TWrap t' => Hwrap t' (ty_ind' t')
     | TUnion ts => Hunion ts (go ts)
     | TNone => Hnone
+    | TLit => Hlit
+    | TAbsent d => Habsent d
+    | TComp k t' => Hcomp k t' (ty_ind' t')
+    | TRMap kt vt => Hrmap kt (ty_ind' kt) vt (ty_ind' vt)
+    | TRec ts => Hrec ts (go ts)
     end.
 End TyInd.
 
@@ -135,7 +145,7 @@ Proof. unfold as_items. induction ys; simpl; [reflexivity | now rewrite IHys]. Q
 (* the generator's identity test does not depend on the holder's dialect support *)
 Lemma is_id_cp_hsup E N h1 h2 t : is_id (cp E N h1 t) = is_id (cp E N h2 t).
 Proof.
-  revert h1 h2. induction t as [| lk | | | t IHt | o t IHt | t IHt | ts IHts | o t1 IHt1 t2 IHt2 | c0 | tw IHw | us IHus |] using ty_ind';
+  revert h1 h2. induction t as [| lk | | | t IHt | o t IHt | t IHt | ts IHts | o t1 IHt1 t2 IHt2 | c0 | tw IHw | us IHus | | | dd | kk tc IHc | rk IHrk rv IHrv | rs IHrs] using ty_ind';
     intros h1 h2; simpl; try reflexivity; try (now apply IHw).
   - unfold seq_expr. rewrite (IHt h1 h2). destruct (is_id (cp E N h2 t)); [| reflexivity].
     destruct (inN N o); [reflexivity |]. destruct (origin_eqb o OList); reflexivity.
@@ -287,14 +297,13 @@ Section PackShare.
   Lemma pack_share_all : forall v, P_pack v.
   Proof.
     induction v as [z | | z | l | k l xs IH | k l kvs IH | c l fs IH] using lv_ind';
-      intros call N hsup t; induction t as [| lk | | | t' IHt | o t' IHt | t' IHt | ts IHts | o kt IHk vt IHv | c0 | tw IHw | us IHus |] using ty_ind';
+      intros call N hsup t; induction t as [| lk | | | t' IHt | o t' IHt | t' IHt | ts IHts | o kt IHk vt IHv | c0 | tw IHw | us IHus | | | dd | kk tc IHc | rk IHrk rv IHrv | rs IHrs] using ty_ind';
       intros n Hc Hu Ho Hn; try (simpl in Hc; discriminate Hc);
       try (apply IHw; auto; fail);
       try (apply P_id; auto; fail);
       try (cbn [cp]; rewrite rp_opt; apply IHt; auto; fail);
-      try (apply union_pack_case; auto; fail).
-    (* VNone : Optional *)
-    - simpl. split; [reflexivity | lia].
+      try (apply union_pack_case; auto; fail);
+      try (simpl; split; [reflexivity | lia]; fail).
     (* VLeaf *)
     - simpl. destruct (e_lp E lk); destruct lk; simpl; (split; [reflexivity | lia]).
     (* VSeq *)
@@ -371,6 +380,20 @@ Section PackShare.
       rewrite Hz.
       destruct (zip_st (fun x t => run_pack E x call (cp E N hsup t)) ts xs (S n)) as [ys n'].
       simpl. rewrite (fresh_not_old n0 n Hn). destruct HM as [HM1 HM2]. split; [exact HM1 | lia].
+    - (* TComp *)
+      assert (Hxs: Forall (fun x => forall m, n0 <= m ->
+                 let (y, m') := run_pack E x call (cp E N hsup tc) m in
+                 maxold n0 y = byref E (ident E) x call N hsup tc /\ m <= m') xs).
+      { simpl in Hc, Ho, Hu. apply andb_prop in Ho. destruct Ho as [_ Ho].
+        apply andb_prop in Hc. destruct Hc as [_ Hc].
+        apply forallb_Forall in Hc. apply forallb_Forall in Ho. apply forallb_Forall in Hu.
+        pose proof (Forall_and _ _ _ (Forall_and _ _ _ (Forall_and _ _ _ IH Hc) Ho) Hu) as H.
+        eapply Forall_impl; [| exact H]. intros x [[[Hx Hcx] Hox] Hux] m Hm. apply Hx; auto. }
+      simpl.
+      pose proof (map_st_flat (fun x => run_pack E x call (cp E N hsup tc)) (maxold n0)
+                    (fun x => byref E (ident E) x call N hsup tc) n0 xs Hxs (S n) ltac:(lia)) as HM.
+      destruct (map_st (fun x => run_pack E x call (cp E N hsup tc)) xs (S n)) as [ys n'].
+      simpl. rewrite (fresh_not_old n0 n Hn). destruct HM as [HM1 HM2]. split; [exact HM1 | lia].
     (* VMap *)
     - (* TMap *)
       assert (Hl: (l <? n0) = true) by (simpl in Ho; apply andb_prop in Ho; tauto).
@@ -425,6 +448,65 @@ Section PackShare.
         specialize (HM (S n) ltac:(lia)). simpl.
         match goal with |- context [map_st ?f kvs (S n)] => destruct (map_st f kvs (S n)) as [ys n'] end.
         simpl. rewrite (fresh_not_old n0 n Hn). destruct HM as [HM1 HM2]. split; [exact HM1 | lia].
+    - (* TRMap *)
+      assert (Hkvs: Forall (fun kv : lv * lv => forall m, n0 <= m ->
+                 let (y, m') := (let (k0, x) := kv in
+                                 let (k', m1) := run_pack E k0 call (cp E N hsup rk) m in
+                                 let (x', m2) := run_pack E x call (cp E N hsup rv) m1 in ((k', x'), m2)) in
+                 (let (a, b) := y in maxold n0 a ++ maxold n0 b)
+                 = (let (k0, x) := kv in byref E (ident E) k0 call N hsup rk ++ byref E (ident E) x call N hsup rv)
+                 /\ m <= m') kvs).
+      { simpl in Hc, Ho, Hu. apply andb_prop in Ho. destruct Ho as [_ Ho].
+        apply forallb_Forall in Hc. apply forallb_Forall in Ho. apply forallb_Forall in Hu.
+        pose proof (Forall_and _ _ _ (Forall_and _ _ _ (Forall_and _ _ _ IH Hc) Ho) Hu) as H.
+        eapply Forall_impl; [| exact H]. intros [k0 x] [[[[Hk Hx] Hcx] Hox] Hux] m Hm. simpl in *.
+        apply andb_prop in Hcx. destruct Hcx as [Hck Hcx]. apply andb_prop in Hox. destruct Hox as [Hok Hox].
+        apply andb_prop in Hux. destruct Hux as [Huk Hux].
+        specialize (Hk call N hsup rk m Hck Huk Hok Hm).
+        destruct (run_pack E k0 call (cp E N hsup rk) m) as [k' m1]. destruct Hk as [Hk Hm1].
+        specialize (Hx call N hsup rv m1 Hcx Hux Hox ltac:(lia)).
+        destruct (run_pack E x call (cp E N hsup rv) m1) as [x' m2]. destruct Hx as [Hx Hm2].
+        split; [now rewrite Hk, Hx | lia]. }
+      pose proof (map_st_flat _ (fun y : lv * lv => let (a, b) := y in maxold n0 a ++ maxold n0 b)
+                    (fun kv : lv * lv => let (k0, x) := kv in
+                       byref E (ident E) k0 call N hsup rk ++ byref E (ident E) x call N hsup rv) n0 kvs Hkvs
+                    (S n) ltac:(lia)) as HM.
+      simpl.
+      match goal with |- context [map_st ?f kvs (S n)] => destruct (map_st f kvs (S n)) as [ys n'] end.
+      simpl. rewrite (fresh_not_old n0 n Hn). destruct HM as [HM1 HM2]. split; [exact HM1 | lia].
+    - (* TRec *)
+      set (pp := fun (kv: lv * lv) (t: ty) =>
+                   (match kv with (k0, x) => match k0 with VAtom _ => conforms E x t | _ => false end end)
+                   && (match kv with (_, x) => udet E x call N hsup t end)).
+      assert (Hkvs: Forall (fun kv : lv * lv => forall (t: ty) m, pp kv t = true -> n0 <= m ->
+                 let (y, m') := (let (k0, x) := kv in
+                                 let (y0, m1) := run_pack E x call (cp E N hsup t) m in ((k0, y0), m1)) in
+                 (let (a, b) := y in maxold n0 a ++ maxold n0 b)
+                 = (let (_, x) := kv in byref E (ident E) x call N hsup t) /\ m <= m') kvs).
+      { simpl in Ho. apply andb_prop in Ho. destruct Ho as [_ Ho]. apply forallb_Forall in Ho.
+        pose proof (Forall_and _ _ _ IH Ho) as H.
+        eapply Forall_impl; [| exact H]. intros [k0 x] [[Hk Hx] Hox] t m Hp Hm. unfold pp in Hp. simpl in *.
+        apply andb_prop in Hp. destruct Hp as [Hcx Hux]. apply andb_prop in Hox. destruct Hox as [_ Hox].
+        destruct k0; try discriminate Hcx.
+        specialize (Hx call N hsup t m Hcx Hux Hox Hm).
+        destruct (run_pack E x call (cp E N hsup t) m) as [y0 m1]. simpl. exact Hx. }
+      simpl in Hc, Hu. pose proof (zip_all_and _ _ _ _ Hc Hu) as Hcu. fold pp in Hcu.
+      pose proof (zip_st_flat (fun (kv: lv * lv) t m => let (k0, x) := kv in
+                                 let (y0, m1) := run_pack E x call (cp E N hsup t) m in ((k0, y0), m1))
+                    (fun y : lv * lv => let (a, b) := y in maxold n0 a ++ maxold n0 b)
+                    (fun (kv: lv * lv) t => let (_, x) := kv in byref E (ident E) x call N hsup t)
+                    pp n0 kvs Hkvs rs (S n) Hcu ltac:(lia)) as HM.
+      simpl.
+      assert (Hz: forall m,
+                 zip_st (fun (kv: lv * lv) e' m => let (k0, x) := kv in
+                           let (y0, m1) := run_pack E x call e' m in ((k0, y0), m1)) (map (cp E N hsup) rs) kvs m
+                 = zip_st (fun (kv: lv * lv) t m => let (k0, x) := kv in
+                           let (y0, m1) := run_pack E x call (cp E N hsup t) m in ((k0, y0), m1)) rs kvs m).
+      { clear. revert rs. induction kvs as [| [k0 x] r IHr]; intros rs m; destruct rs as [| t ts]; simpl; try reflexivity.
+        destruct (run_pack E x call (cp E N hsup t) m) as [y m1]. now rewrite IHr. }
+      rewrite Hz.
+      match goal with |- context [zip_st ?f rs kvs (S n)] => destruct (zip_st f rs kvs (S n)) as [ys n'] end.
+      simpl. rewrite (fresh_not_old n0 n Hn). destruct HM as [HM1 HM2]. split; [exact HM1 | lia].
     (* VObj *)
     - (* TDC *)
       simpl in Hc. apply andb_prop in Hc. destruct Hc as [Hcc Hc]. apply Nat.eqb_eq in Hcc. subst c0.
@@ -504,13 +586,14 @@ Section UnpackShare.
   Lemma unpack_share_all : forall w, P_unpack w.
   Proof.
     induction w as [z | | z | l | k l xs IH | k l kvs IH | c l fs IH] using lv_ind';
-      intros t; induction t as [| lk | | | t' IHt | o t' IHt | t' IHt | ts IHts | o kt IHk vt IHv | c0 | tw IHw | us IHus |] using ty_ind';
+      intros t; induction t as [| lk | | | t' IHt | o t' IHt | t' IHt | ts IHts | o kt IHk vt IHv | c0 | tw IHw | us IHus | | | dd | kk tc IHc | rk IHrk rv IHrv | rs IHrs] using ty_ind';
       intros n Hc Ho Hn; try (simpl in Hc; discriminate Hc);
       try (apply U_id; auto; fail);
       try (cbn [cu]; rewrite ru_opt; apply IHt; auto; fail);
       try (apply union_case; auto; fail);
       try (apply IHw; auto; fail);
-      try (simpl; split; [reflexivity | lia]; fail).
+      try (simpl; split; [reflexivity | lia]; fail);
+      try (destruct dd as [| kk]; [| destruct kk]; simpl; rewrite ?(fresh_not_old n0 n Hn); (split; [reflexivity | lia]); fail).
     - (* TSeq *)
       assert (Hxs: Forall (fun x => forall m, n0 <= m ->
                  let (y, m') := run_unpack E x (cu t') m in maxold n0 y = anyref E x t' /\ m <= m') xs).
@@ -552,6 +635,18 @@ Section UnpackShare.
       rewrite Hz.
       destruct (zip_st (fun x t => run_unpack E x (cu t)) ts xs (S n)) as [ys n'].
       simpl. rewrite (fresh_not_old n0 n Hn). destruct HM as [HM1 HM2]. split; [exact HM1 | lia].
+    - (* TComp *)
+      assert (Hxs: Forall (fun x => forall m, n0 <= m ->
+                 let (y, m') := run_unpack E x (cu tc) m in maxold n0 y = anyref E x tc /\ m <= m') xs).
+      { simpl in Hc, Ho. apply andb_prop in Ho. destruct Ho as [_ Ho].
+        apply forallb_Forall in Hc. apply forallb_Forall in Ho.
+        pose proof (Forall_and _ _ _ (Forall_and _ _ _ IH Hc) Ho) as H.
+        eapply Forall_impl; [| exact H]. intros x [[Hx Hcx] Hox] m Hm. apply Hx; auto. }
+      simpl.
+      pose proof (map_st_flat (fun x => run_unpack E x (cu tc)) (maxold n0)
+                    (fun x => anyref E x tc) n0 xs Hxs (S n) ltac:(lia)) as HM.
+      destruct (map_st (fun x => run_unpack E x (cu tc)) xs (S n)) as [ys n'].
+      simpl. rewrite (fresh_not_old n0 n Hn). destruct HM as [HM1 HM2]. split; [exact HM1 | lia].
     - (* TMap *)
       assert (Hkvs: Forall (fun kv : lv * lv => forall m, n0 <= m ->
                  let (y, m') := (let (k0, x) := kv in
@@ -592,6 +687,61 @@ Section UnpackShare.
                     (c_fields (e_ct E c0)) (S n) Hc ltac:(lia)) as HM.
       simpl.
       match goal with |- context [zip_st ?f ?a kvs (S n)] => destruct (zip_st f a kvs (S n)) as [ys n'] end.
+      simpl. rewrite (fresh_not_old n0 n Hn). destruct HM as [HM1 HM2]. split; [exact HM1 | lia].
+    - (* TRMap *)
+      assert (Hkvs: Forall (fun kv : lv * lv => forall m, n0 <= m ->
+                 let (y, m') := (let (k0, x) := kv in
+                                 let (k', m1) := run_unpack E k0 (cu rk) m in
+                                 let (x', m2) := run_unpack E x (cu rv) m1 in ((k', x'), m2)) in
+                 (let (a, b) := y in maxold n0 a ++ maxold n0 b)
+                 = (let (k0, x) := kv in anyref E k0 rk ++ anyref E x rv)
+                 /\ m <= m') kvs).
+      { simpl in Hc, Ho. apply andb_prop in Ho. destruct Ho as [_ Ho].
+        apply forallb_Forall in Hc. apply forallb_Forall in Ho.
+        pose proof (Forall_and _ _ _ (Forall_and _ _ _ IH Hc) Ho) as H.
+        eapply Forall_impl; [| exact H]. intros [k0 x] [[[Hk Hx] Hcx] Hox] m Hm. simpl in *.
+        apply andb_prop in Hcx. destruct Hcx as [Hck Hcx]. apply andb_prop in Hox. destruct Hox as [Hok Hox].
+        specialize (Hk rk m Hck Hok Hm).
+        destruct (run_unpack E k0 (cu rk) m) as [k' m1]. destruct Hk as [Hk Hm1].
+        specialize (Hx rv m1 Hcx Hox ltac:(lia)).
+        destruct (run_unpack E x (cu rv) m1) as [x' m2]. destruct Hx as [Hx Hm2].
+        split; [now rewrite Hk, Hx | lia]. }
+      pose proof (map_st_flat _ (fun y : lv * lv => let (a, b) := y in maxold n0 a ++ maxold n0 b)
+                    (fun kv : lv * lv => let (k0, x) := kv in anyref E k0 rk ++ anyref E x rv) n0 kvs Hkvs
+                    (S n) ltac:(lia)) as HM.
+      simpl.
+      match goal with |- context [map_st ?f kvs (S n)] => destruct (map_st f kvs (S n)) as [ys n'] end.
+      simpl. rewrite (fresh_not_old n0 n Hn). destruct HM as [HM1 HM2]. split; [exact HM1 | lia].
+    - (* TRec *)
+      set (pp := fun (kv: lv * lv) (t: ty) =>
+                   match kv with (k0, x) => match k0 with VAtom _ => wconforms E x t | _ => false end end).
+      assert (Hkvs: Forall (fun kv : lv * lv => forall (t: ty) m, pp kv t = true -> n0 <= m ->
+                 let (y, m') := (let (k0, x) := kv in
+                                 let (y0, m1) := run_unpack E x (cu t) m in ((k0, y0), m1)) in
+                 (let (a, b) := y in maxold n0 a ++ maxold n0 b)
+                 = (let (_, x) := kv in anyref E x t) /\ m <= m') kvs).
+      { simpl in Ho. apply andb_prop in Ho. destruct Ho as [_ Ho]. apply forallb_Forall in Ho.
+        pose proof (Forall_and _ _ _ IH Ho) as H.
+        eapply Forall_impl; [| exact H]. intros [k0 x] [[Hk Hx] Hox] t m Hp Hm. unfold pp in Hp. simpl in *.
+        apply andb_prop in Hox. destruct Hox as [_ Hox]. destruct k0; try discriminate Hp.
+        specialize (Hx t m Hp Hox Hm).
+        destruct (run_unpack E x (cu t) m) as [y0 m1]. simpl. exact Hx. }
+      simpl in Hc. fold pp in Hc.
+      pose proof (zip_st_flat (fun (kv: lv * lv) t m => let (k0, x) := kv in
+                                 let (y0, m1) := run_unpack E x (cu t) m in ((k0, y0), m1))
+                    (fun y : lv * lv => let (a, b) := y in maxold n0 a ++ maxold n0 b)
+                    (fun (kv: lv * lv) t => let (_, x) := kv in anyref E x t)
+                    pp n0 kvs Hkvs rs (S n) Hc ltac:(lia)) as HM.
+      simpl.
+      assert (Hz: forall m,
+                 zip_st (fun (kv: lv * lv) e' m => let (k0, x) := kv in
+                           let (y0, m1) := run_unpack E x e' m in ((k0, y0), m1)) (map cu rs) kvs m
+                 = zip_st (fun (kv: lv * lv) t m => let (k0, x) := kv in
+                           let (y0, m1) := run_unpack E x (cu t) m in ((k0, y0), m1)) rs kvs m).
+      { clear. revert rs. induction kvs as [| [k0 x] r IHr]; intros rs m; destruct rs as [| t ts]; simpl; try reflexivity.
+        destruct (run_unpack E x (cu t) m) as [y m1]. now rewrite IHr. }
+      rewrite Hz.
+      match goal with |- context [zip_st ?f rs kvs (S n)] => destruct (zip_st f rs kvs (S n)) as [ys n'] end.
       simpl. rewrite (fresh_not_old n0 n Hn). destruct HM as [HM1 HM2]. split; [exact HM1 | lia].
   Qed.
 End UnpackShare.
@@ -652,10 +802,10 @@ Qed.
 Fixpoint unionfree (t: ty) : bool :=
   match t with
   | TUnion _ => false
-  | TAtom | TLeaf _ | TAny | TPass | TDC _ | TNone => true
-  | TOpt t' | TSeq _ t' | TTupV t' | TWrap t' => unionfree t'
-  | TTup ts => forallb unionfree ts
-  | TMap _ kt vt => unionfree kt && unionfree vt
+  | TAtom | TLeaf _ | TAny | TPass | TDC _ | TNone | TLit | TAbsent _ => true
+  | TOpt t' | TSeq _ t' | TTupV t' | TWrap t' | TComp _ t' => unionfree t'
+  | TTup ts | TRec ts => forallb unionfree ts
+  | TMap _ kt vt | TRMap kt vt => unionfree kt && unionfree vt
   end.
 Definition unionfree_env (E: env) : Prop := forall c, forallb unionfree (E.(e_ct) c).(c_fields) = true.
 
@@ -676,7 +826,7 @@ Section UnionFree.
     unionfree t = true -> conforms E v t = true -> udet E v call N hsup t = true.
   Proof.
     induction v as [z | | z | l | k l xs IH | k l kvs IH | c l fs IH] using lv_ind';
-      intros call N hsup t; induction t as [| lk | | | t' IHt | o t' IHt | t' IHt | ts IHts | o kt IHk vt IHv | c0 | tw IHw | us IHus |] using ty_ind';
+      intros call N hsup t; induction t as [| lk | | | t' IHt | o t' IHt | t' IHt | ts IHts | o kt IHk vt IHv | c0 | tw IHw | us IHus | | | dd | kk tc IHc | rk IHrk rv IHrv | rs IHrs] using ty_ind';
       intros Hf Hc; try (apply IHw; auto; fail); try (apply IHt; auto; fail);
       simpl in Hf; try discriminate Hf; simpl in Hc; try discriminate Hc; try reflexivity.
     - simpl. apply andb_prop in Hc. destruct Hc as [_ Hc]. apply forallb_forall. intros x Hx. rewrite Forall_forall in IH.
@@ -686,10 +836,24 @@ Section UnionFree.
     - simpl. apply andb_prop in Hc. destruct Hc as [_ Hc].
       apply (zip_all_impl (conforms E) _ unionfree xs) with (ts := ts); auto.
       eapply Forall_impl; [| exact IH]. intros x Hx t Ht Hcx. apply Hx; auto.
+    - (* TComp *)
+      simpl. apply andb_prop in Hc. destruct Hc as [_ Hc]. apply forallb_forall. intros x Hx. rewrite Forall_forall in IH.
+      apply IH; auto. rewrite forallb_forall in Hc. now apply Hc.
     - simpl. apply andb_prop in Hf. destruct Hf as [Hfk Hfv]. apply andb_prop in Hc. destruct Hc as [_ Hc].
       apply forallb_forall. intros [a b] Hx. rewrite Forall_forall in IH. destruct (IH (a, b) Hx) as [IHa IHb].
       rewrite forallb_forall in Hc. specialize (Hc (a, b) Hx). simpl in *.
       apply andb_prop in Hc. destruct Hc as [Hca Hcb]. rewrite IHa, IHb; auto.
+    - (* TRMap *)
+      simpl. apply andb_prop in Hf. destruct Hf as [Hfk Hfv].
+      apply forallb_forall. intros [a b] Hx. rewrite Forall_forall in IH. destruct (IH (a, b) Hx) as [IHa IHb].
+      rewrite forallb_forall in Hc. specialize (Hc (a, b) Hx). simpl in *.
+      apply andb_prop in Hc. destruct Hc as [Hca Hcb]. rewrite IHa, IHb; auto.
+    - (* TRec *)
+      simpl.
+      apply (zip_all_impl (fun (kv: lv * lv) t' => match kv with (k0, x) => match k0 with VAtom _ => conforms E x t' | _ => false end end)
+                          _ unionfree kvs) with (ts := rs); auto.
+      eapply Forall_impl; [| exact IH]. intros [a b] [Hx1 Hx2] t Ht Hcx. simpl in *.
+      destruct a; try discriminate Hcx. apply Hx2; auto.
     - simpl. apply andb_prop in Hc. destruct Hc as [Hcc Hc].
       apply (zip_all_impl (conforms E) _ unionfree fs) with (ts := c_fields (e_ct E c)); auto.
       eapply Forall_impl; [| exact IH]. intros x Hx t Ht Hcx. apply Hx; auto.
